@@ -176,6 +176,8 @@ pub struct BlockingHandle<BS: BlockingCmdTaskSender> {
 
 impl<BS: BlockingCmdTaskSender> BlockingHandle<BS> {
     fn new(inner: Arc<BlockingHandleInner<BS>>) -> Self {
+        #[cfg(feature = "verif")]
+        crate::common::verif_sched::point("handle_new:before_cas");
         inner
             .blocking_state
             .compare_and_apply(|blocking_count| blocking_count + 1, |term| term + 1);
@@ -189,12 +191,16 @@ impl<BS: BlockingCmdTaskSender> BlockingHandle<BS> {
 impl<BS: BlockingCmdTaskSender> Drop for BlockingHandle<BS> {
     fn drop(&mut self) {
         info!("blocking handle is dropped");
+        #[cfg(feature = "verif")]
+        crate::common::verif_sched::point("handle_drop:before_cas");
         let (prev_blocking_count, _prev_term) = self
             .inner
             .blocking_state
             .compare_and_apply(|blocking_count| blocking_count - 1, |term| term + 1);
         if prev_blocking_count == 1 {
             info!("migraition stop blocking");
+            #[cfg(feature = "verif")]
+            crate::common::verif_sched::point("handle_drop:before_release");
             self.inner.release_all();
         }
     }
@@ -209,6 +215,8 @@ struct BlockingHandleInner<BS: BlockingCmdTaskSender> {
 impl<BS: BlockingCmdTaskSender> BlockingHandleInner<BS> {
     fn release_all(&self) {
         loop {
+            #[cfg(feature = "verif")]
+            crate::common::verif_sched::point("release_all:before_recv");
             let cmd_task = match self.queue_receiver.try_recv() {
                 Ok(cmd_task) => cmd_task,
                 Err(err) => {
@@ -218,6 +226,8 @@ impl<BS: BlockingCmdTaskSender> BlockingHandleInner<BS> {
                     return;
                 }
             };
+            #[cfg(feature = "verif")]
+            crate::common::verif_sched::point("release_all:before_resend");
             if let Err(err) = self.blocking_task_sender.send(cmd_task) {
                 error!(
                     "failed to send task when releasing blocking queue: {:?}",
@@ -280,7 +290,11 @@ where
         // Since CmdTaskSender::send has to be `&self`, we have to implement something similar ourselves.
         // Add `running_cmd` anyway to hold this "lock".
         // TODO: this counter increment (reader lock) might starve the waiting side (writer lock).
+        #[cfg(feature = "verif")]
+        crate::common::verif_sched::point("send:before_counter");
         let counter = RefAutoCounter::new(&self.running_cmd);
+        #[cfg(feature = "verif")]
+        crate::common::verif_sched::point("send:before_state_read");
         let BlockingState { blocking, term } = self.get_blocking_state();
         if !blocking {
             let blocking = match cmd_blocking_hint {
@@ -298,6 +312,8 @@ where
                 BlockingHint::Blocking => true,
             };
             if !blocking {
+                #[cfg(feature = "verif")]
+                crate::common::verif_sched::point("send:before_inner_send");
                 let counter_task = CounterTask::new(cmd_task, self.running_cmd.clone());
                 return self.inner_sender.send(counter_task).map_err(|err| {
                     err.map_task(|task| BlockingHintTask::new(task.into_inner(), cmd_blocking_hint))
@@ -310,8 +326,12 @@ where
                 cmd_blocking_hint,
             )));
         }
+        #[cfg(feature = "verif")]
+        crate::common::verif_sched::point("send:before_counter_drop");
         drop(counter);
 
+        #[cfg(feature = "verif")]
+        crate::common::verif_sched::point("send:before_enqueue");
         if let Err(err) = self.queue_sender.send(cmd_task) {
             let cmd_task = err.into_inner();
             cmd_task.set_resp_result(Ok(Resp::Error(
@@ -321,6 +341,8 @@ where
             return Err(SenderBackendError::Canceled);
         }
 
+        #[cfg(feature = "verif")]
+        crate::common::verif_sched::point("send:before_recheck");
         let BlockingState { blocking, .. } = self.get_blocking_state();
         if !blocking {
             self.blocking_handle_inner.release_all();
@@ -337,6 +359,8 @@ where
     type Sender = BS;
 
     fn blocking_done(&self) -> bool {
+        #[cfg(feature = "verif")]
+        crate::common::verif_sched::point("blocking_done:before_load");
         self.running_cmd.load(Ordering::SeqCst) == 0
     }
 
@@ -427,6 +451,8 @@ impl AutoCounter {
 
 impl Drop for AutoCounter {
     fn drop(&mut self) {
+        #[cfg(feature = "verif")]
+        crate::common::verif_sched::point("counter_task:before_release");
         // TODO: This order could be relaxed.
         self.0.fetch_sub(1, Ordering::SeqCst);
     }
